@@ -18,7 +18,7 @@ def poison_cases(ctx, nmax, exhaustive):
     """one poisoned record at every position k x every clause that can evaluate it"""
     r = ctx.rng
     out = []
-    clauses = ['select', 'where', 'order', 'group', 'aggarg', 'aggconv', 'update_rhs', 'update_target', 'joinkey', 'none_plus']
+    clauses = ['select', 'where', 'order', 'group', 'aggarg', 'aggconv', 'update_rhs', 'update_target', 'joinkey', 'none_plus', 'unnest_join']
     for n in range(1, nmax + 1):
         for k in range(1, n + 1):
             for cl in clauses:
@@ -64,6 +64,12 @@ def poison_cases(ctx, nmax, exhaustive):
                     elif cl == 'none_plus':
                         qa['kind'] = ('select', [('expr', ('add', ('fld', 'a', 2), ('lit', '!')))])
                         poison = None
+                    elif cl == 'unnest_join':
+                        # a VALID query with per-match state (UNNEST under a JOIN with two matches per record): the records before the
+                        # poisoned one are written, the failure is that record's - never a parsing error in mid-run (seeded change C14-11)
+                        B = [['p', '1'], ['q', '2'], ['p', '3'], ['q', '4']]
+                        qa['kind'] = ('select', [('expr', ('fld', 'a', 0)), ('unnest', ('list', [('fld', 'b', 1), ('int', ('fld', 'a', 1))]), 'UNNEST')])
+                        qa['join'] = {'kind': ['inner', 'left'][variant], 'spelling': ['join', 'left join'][variant], 'lhs': [2], 'rhs': [0]}
                     if poison is not None:
                         A[k - 1][1] = poison
                     else:
@@ -170,7 +176,7 @@ def run(ctx):
     cases += wc
     ctx.exhaustive = False
     ctx.rule = ('tables of 1-%d records with ONE poisoned record at every position k x clauses {select item, WHERE, ORDER BY, GROUP BY, aggregate argument, aggregate numeric '
-                'conversion, UPDATE right-hand side, UPDATE target beyond the record, JOIN key, None + str} x 2 variants: the error must be query-execution, name record k '
+                'conversion, UPDATE right-hand side, UPDATE target beyond the record, JOIN key, None + str, UNNEST under a two-match JOIN} x 2 variants: the error must be query-execution, name record k '
                 '(and the field), and the trace must equal the model trace; static mistakes (ORDER BY+UPDATE, GROUP BY+ORDER BY/UPDATE, EXCEPT+JOIN): parsing error with an empty '
                 'writer trace; ragged header-less tables through query_table: field-count warning (kind, numbers) = Warn.field_count_warning over the records pulled; '
                 'non-trivial = distinct case with an error or a warning') % (4 if ctx.tier == 'quick' else 6)
